@@ -123,7 +123,7 @@ func modelValues(fr *FuncRun, o *Oblig, qs []query) (map[string]string, string) 
 	if hasQuant(roots...) {
 		sb.WriteString("(set-option :auto_config false)\n(set-option :smt.mbqi false)\n")
 	}
-	sb.WriteString(fr.Prelude)
+	sb.WriteString(filterPrelude(fr.Prelude, p.Defs()+body.String()+g+strings.Join(qtxt, " ")))
 	sb.WriteString(structSortDeclsExtra(fr.Prelude))
 	sb.WriteString(p.Decls(nil))
 	sb.WriteString(p.Defs())
